@@ -236,6 +236,12 @@ def run(ctx) -> None:
     install(logpath)
     proc_choices = [1, 2, 5] if quick else [1, 2, 3, 4, 5, 8, 16]
     comps = list(BOUNDS.keys())[:5]
+    # guaranteed minimum, independent of the time budget
+    v0 = gen.sa_game(rng, 3, "int")[0]
+    search_case(ctx, {"n": 3, "family": "int", "values": v0, "computer": "superadditive_cached", "gap": "exploitability",
+                      "start": sorted(minimal_masks(3)), "k": 3, "processes": [1, 2], "jitter": 0.0}, logpath)
+    best_states_case(ctx, {"n": 3, "generator": "noisy_factory", "computer": "superadditive", "gap": "l1_norm", "k": 2, "samples": 2,
+                           "processes": [2], "seed": rng.randint(0, 10**6), "scale": 1.0}, logpath)
     i = 0
     while not ctx.out_of_time(8.0):
         i += 1
